@@ -17,7 +17,7 @@ RULE = ("revolute / prismatic unit twists in 3D (axis direction x length 1e-3..1
         "of the axis fixed by exp(theta S), rotation = reference Rodrigues(unit axis, theta), prismatic = translation "
         "theta*unit direction, pitch/pole/line/theta()/isprismatic, se(n) form, inverse and scalar multiples consistent "
         "with exp.  Non-trivial: axis not a coordinate axis, q != 0, theta != 0.")
-RULE = RULE + probes.RULE_TEXT + (probes.AUG_TEXT if PROPERTY_ID in probes.AUG_PROPS else "")
+RULE = RULE + probes.RULE_TEXT + (probes.AUG_TEXT if PROPERTY_ID in probes.AUG_PROPS else "") + probes.VARIANT_TEXT
 ASSUMPTIONS = ["tolerance 1e-9*max(1,|q|)", "pitch argument of Revolute, isrevolute and isunit are not in the statement"]
 
 TWO_PI = 2 * math.pi
@@ -83,7 +83,7 @@ def _pose(c, site, X, cls, n=1):
 
 
 def check_case(case):
-    if case.get("kind") in ("hist", "aug"):
+    if case.get("kind") in ("hist", "aug", "variant"):
         return probes.run(case, PROPERTY_ID)
     return {"rev3": _rev3, "pris3": _pris3, "rev2": _rev2, "pris2": _pris2}[case["kind"]](case)
 
@@ -391,7 +391,7 @@ def _pris2(case):
 
 
 def classify(case):
-    if case.get("kind") in ("hist", "aug"):
+    if case.get("kind") in ("hist", "aug", "variant"):
         return probes.classify(case)
     k = case["kind"]
     lab = {"kind:" + k: True}
